@@ -35,7 +35,7 @@ Ltac bprop :=
 
 
 (* ---------- machine arithmetic ---------- *)
-Definition int_ok (v : Z) : Prop := - 2 ^ 31 <= v < 2 ^ 31.
+Definition int_ok (v : Z) : Prop := - 2 ^ 62 <= v < 2 ^ 62.
 Definition oint_ok (o : option Z) : Prop := match o with None => True | Some v => int_ok v end.
 
 Lemma p31 : 2 ^ 31 = 2147483648. Proof. reflexivity. Qed.
@@ -150,7 +150,7 @@ Qed.
 Lemma clamp64_eq n st v : 0 <= n < 2 ^ 62 -> int_ok v ->
   clamp64 n (if st <? 0 then -1 else 0) (if st <? 0 then n - 1 else n) v = py_clamp n st v.
 Proof.
-  intros Hn Hv. unfold clamp64, py_clamp, int_ok in *. rewrite p31, p62 in *.
+  intros Hn Hv. unfold clamp64, py_clamp, int_ok in *. rewrite p62 in *.
   destruct (Z.ltb_spec v 0).
   - rewrite i64_small by (rewrite p63; lia). zb; lia.
   - zb; lia.
@@ -162,13 +162,13 @@ Lemma normalize_slice_eq n a b c :
 Proof.
   intros Hn Ha Hb Hc. unfold normalize_slice, py_start, py_stop.
   assert (Hst : match c with None => 1 | Some s => i64 s end = py_step c).
-  { destruct c as [s|]; cbn in *; [|reflexivity]. unfold int_ok in Hc. rewrite p31 in Hc.
+  { destruct c as [s|]; cbn in *; [|reflexivity]. unfold int_ok in Hc. rewrite p62 in Hc.
     apply i64_small. rewrite p63. lia. }
   rewrite Hst. set (st := py_step c).
   rewrite (i64_small n) by (rewrite p62, p63 in *; lia).
   rewrite (i64_small (n - 1)) by (rewrite p62, p63 in *; lia).
   assert (Hi : forall v, int_ok v -> i64 v = v)
-    by (intros v Hv; unfold int_ok in Hv; rewrite p31 in Hv; apply i64_small; rewrite p63; lia).
+    by (intros v Hv; unfold int_ok in Hv; rewrite p62 in Hv; apply i64_small; rewrite p63; lia).
   apply f_equal2; [apply f_equal2|reflexivity].
   - destruct a as [a|]; cbn in Ha.
     + rewrite (Hi a Ha). now apply clamp64_eq.
@@ -181,7 +181,7 @@ Qed.
 Lemma compute_step_eq c : oint_ok c -> compute_step c = Z.abs (py_step c).
 Proof.
   destruct c as [c|]; cbn [compute_step py_step oint_ok]; [|reflexivity].
-  unfold int_ok. intros H. rewrite p31 in H.
+  unfold int_ok. intros H. rewrite p62 in H.
   rewrite (i64_small c) by (rewrite p63; lia).
   destruct (Z.ltb_spec c 0).
   - rewrite i64_small by (rewrite p63; lia). rewrite u64_small by (rewrite p64; lia). lia.
@@ -205,12 +205,12 @@ Lemma slice_python n a b c :
 Proof.
   intros Hn Ha Hb Hc Hst.
   pose proof (py_len_bounds n a b c ltac:(lia) Hst) as HL.
-  assert (Hstep : int_ok (py_step c)) by (destruct c; cbn in *; [assumption|unfold int_ok; rewrite p31; lia]).
-  unfold int_ok in Hstep. rewrite p31 in Hstep.
+  assert (Hstep : int_ok (py_step c)) by (destruct c; cbn in *; [assumption|unfold int_ok; rewrite p62; lia]).
+  unfold int_ok in Hstep. rewrite p62 in Hstep.
   split.
   - unfold slice_len, compute_range. rewrite normalize_slice_eq, compute_step_eq by assumption.
     set (st := py_step c) in *. set (s0 := py_start n a c). set (s1 := py_stop n b c).
-    assert (Ht : 0 < Z.abs st < 2 ^ 32) by (rewrite p32; lia).
+    assert (Ht : 0 < Z.abs st <= 2 ^ 62) by (rewrite p62; lia).
     replace (Z.abs st =? 0) with false by (symmetry; apply Z.eqb_neq; lia).
     unfold py_len. fold st s0 s1. rewrite p62 in Hn.
     destruct (Z.ltb_spec st 0) as [Hneg|Hpos].
